@@ -2,9 +2,24 @@
 
 __all__ = ['CSSRule']
 
+import re
+import sys
 import xml.dom
 
 import cssutils.util
+
+
+_unescape = re.compile(
+    r'\\(?:([0-9a-fA-F]{1,6})(?:\r\n|[ \t\r\n\f])?|([^\n\r\f]))'
+).sub
+
+
+def _unescaped(match):
+    "every escape is resolved, and only once (as the tokenizer reads a keyword)"
+    if match.group(1) is None:
+        return match.group(2)
+    num = int(match.group(1), 16)
+    return chr(num) if num <= sys.maxunicode else match.group(0)
 
 
 class CSSRule(cssutils.util.Base2):
@@ -75,6 +90,9 @@ class CSSRule(cssutils.util.Base2):
     def _setAtkeyword(self, keyword):
         """Check if new keyword fits the rule it is used for."""
         atkeyword = self._normalize(keyword)
+        if self.atkeyword and '\\' not in self.atkeyword and '\\' in atkeyword:
+            # the token of a known keyword keeps its unicode escapes
+            atkeyword = _unescape(_unescaped, keyword).lower()
         if not self.atkeyword or (self.atkeyword == atkeyword):
             self._atkeyword = atkeyword
             self._keyword = keyword
